@@ -35,6 +35,10 @@ def gen(rng, tier):
         if adv:
             p = progs.adversarial_program(rng, p)
         cases.append({'clauses': p['clauses'], 'queries': p['queries'], 'adversarial': adv})
+    for _ in range(n // 4):
+        # "every `_` is a distinct variable": clauses full of `_` next to named variables with adversarial names
+        p = progs.gen_anon_program(rng)
+        cases.append({'clauses': p['clauses'], 'queries': p['queries'], 'anon': True})
     return cases
 
 def builtin_corpus():
